@@ -73,8 +73,34 @@ func TestC19Generate(t *testing.T) {
 	cs := p.Generate(rand.New(rand.NewSource(1)), "quick")
 	// the complete product: 121 style sequences, 49 of them (exactly one raw block) in both
 	// raw forms, x 5 x 4 x 4 x 2
-	if want := (121 + 49) * 5 * 4 * 4 * 2; len(cs) != want {
-		t.Errorf("%d cases, want %d", len(cs), want)
+	// plus, sampled at 1/3 in quick, the same product over the 660 sequences that contain a
+	// "\n"-terminated block (every sequence must be represented)
+	old, nl := 0, 0
+	nlSeqs := map[string]bool{}
+	for _, c := range cs {
+		cfg := c.Meta["cfg"].(c19Cfg)
+		if strings.ContainsAny(cfg.Styles, "nt") {
+			nl++
+			nlSeqs[cfg.Styles] = true
+			if !hasTag(c, "preamble-trailing-newline") {
+				t.Fatalf("tag missing on %s", cfg.Styles)
+			}
+			ends := false
+			for _, p := range cfg.Pre {
+				ends = ends || strings.HasSuffix(p, "\n")
+			}
+			if !ends {
+				t.Fatalf("no block of %q ends in a newline: %q", cfg.Styles, cfg.Pre)
+			}
+		} else {
+			old++
+		}
+	}
+	if want := (121 + 49) * 5 * 4 * 4 * 2; old != want {
+		t.Errorf("%d cases without newline-terminated blocks, want %d", old, want)
+	}
+	if len(nlSeqs) != 660 || nl < 660*160/4 || nl > 660*160/2 {
+		t.Errorf("newline-terminated blocks: %d sequences (want 660), %d cases", len(nlSeqs), nl)
 	}
 	seen := map[string]bool{}
 	for _, c := range cs {
@@ -97,6 +123,38 @@ func TestC19Generate(t *testing.T) {
 	c := c19Make(c19Cfg{Use: "qual", Others: "none", Hint: "none"})
 	if p.Oracle(c, []hist.Obs{{Kind: "fmterr", Out: "x"}}) == "" {
 		t.Errorf("format error accepted")
+	}
+}
+
+func hasTag(c *Case, tag string) bool {
+	for _, t := range c.Tags {
+		if t == tag {
+			return true
+		}
+	}
+	return false
+}
+
+// preamble texts that end in a newline: what the oracle accepts and what it rejects
+func TestC19TrailingNewline(t *testing.T) {
+	pre := []string{"#include <math.h>\n", "#include <a.h>\nint f(void);\n", "#include <z.h>"}
+	ref := "var _ = C." + c19Ref + "\n"
+	good := "package p\n\n/*\n#include <math.h>\n*/\n/*\n#include <a.h>\nint f(void);\n*/\n// #include <z.h>\nimport \"C\"\n\n" + ref
+	if m := C19Check(true, false, pre, nil, good); m != "" {
+		t.Errorf("good output rejected: %s", m)
+	}
+	for name, c := range map[string][2]string{
+		// the closing marker is followed by an empty line: the comment is detached from import "C"
+		"blank line after a block":  {"package p\n\n/*\n#include <math.h>\n*/\n/*\n#include <a.h>\nint f(void);\n*/\n// #include <z.h>\n\nimport \"C\"\n\n" + ref, "no comment directly above"},
+		"blank line between blocks": {"package p\n\n/*\n#include <math.h>\n*/\n\n/*\n#include <a.h>\nint f(void);\n*/\n// #include <z.h>\nimport \"C\"\n\n" + ref, "not the preamble in the order given"},
+		// a one-line text with trailing newline written as a // line: the newline ends the comment and detaches it
+		"line comment plus newline":        {"package p\n\n// #include <math.h>\n\n/*\n#include <a.h>\nint f(void);\n*/\n// #include <z.h>\nimport \"C\"\n\n" + ref, "not the preamble in the order given"},
+		"newline-terminated block dropped": {"package p\n\n/*\n#include <a.h>\nint f(void);\n*/\n// #include <z.h>\nimport \"C\"\n\n" + ref, "not the preamble in the order given"},
+		"unterminated block":               {"package p\n\n/*\n#include <math.h>\nimport \"C\"\n\n" + ref, "does not parse"},
+	} {
+		if m := C19Check(true, false, pre, nil, c[0]); !strings.Contains(m, c[1]) {
+			t.Errorf("%s: want %q, got %q", name, c[1], m)
+		}
 	}
 }
 
